@@ -234,6 +234,9 @@ Proof. exact run_transparent. Qed.
 Print Assumptions C15_transparent.
 
 (* --- retransmissions: the client encodes the caller's request, never an already encoded one --- *)
+(* C15_retransmit is definitional (both branches of nth_wire's loop return enc_op): it only names the shape of the
+   sequential model's send loop. The content - that the real plumbing (request pool, cloning, AttachContext) behaves like
+   that for every schedule and pool behaviour - is C15_pool_safety / C15_pool_safety_failures and the refuted variants below. *)
 Theorem C15_retransmit : forall c o n, nth_wire false c o n = enc_op c o.
 Proof. exact nth_wire_first. Qed.
 Print Assumptions C15_retransmit.
@@ -326,6 +329,9 @@ Proof. exact layout_phys. Qed.
 Print Assumptions C15_transparency_layout.
 
 (* --- catalogue: meaning of the generated finite check --- *)
+(* this only unfolds the boolean [catalogue_ok] row by row. What a run establishes is that the Go reflection driver reported
+   a complete row for every command / field of this tree's finite table and that Coq re-checked the table (vm_compute in
+   build/apiv2/Gen_Catalogue.v); nothing is proved here about EncodeRequest / DecodeResponse for all inputs. *)
 Theorem C15_catalogue_meaning : forall fields cmds, catalogue_ok fields cmds = true ->
   (forall f, In f fields -> f_obs f = expected f /\ f_foreign_rejected f = true) /\
   (forall x, In x cmds ->
